@@ -254,7 +254,10 @@ def cacheseq(prop, tier, seed):
         cov["traces_validated_against_impl"] += tv["distinct"]
         cov["rule"] += ("; plus trace validation: %d refreshes recorded from the repository's own pkg/cdi tests and from this replay "
                         "(%d distinct up to renaming) accepted by TLC against spec/RefreshTrace.tla" % (tv["events"], tv["distinct"]))
-        # "in both manual and automatic refresh configurations": directory histories on an auto-refresh cache
+    if prop in ("C01", "C13"):
+        # "in both manual and automatic refresh configurations" (C01) / "every later repair" of an unscannable
+        # directory (C13): directory histories on an auto-refresh cache; in every other behaviour a directory that
+        # does not exist is a path below a regular file (ENOTDIR) instead of a missing entry
         g = run_tlc("CacheAuto", "CacheAuto_gen1.cfg", timeout=1800, simulate="num=%d" % (25 if tier == "quick" else 300), depth=40, seed=seed, workers=4, deadlock=True)
         arows = dedupe_auto(g.rows)
         fa = scratch_file("c01auto.ndjson")
